@@ -133,7 +133,9 @@ func zipFileOwnership(hdr *zip.FileHeader) (uint32, uint32, error) {
 	if unix3, ok := hdrs[zipExtraUnix3]; ok {
 		return parseUnix3Header(unix3.data)
 	}
-	if unix2, ok := hdrs[zipExtraUnix2]; ok {
+	// (The central-directory form of Info-ZIP 2.x's unix2 block carries no data -- the ids live in the local header
+	//  only, which archive/zip does not hand on.  It says nothing about the owner: same as no owner block at all.)
+	if unix2, ok := hdrs[zipExtraUnix2]; ok && len(unix2.data) > 0 {
 		return parseUnix2Header(unix2.data)
 	}
 
